@@ -5,10 +5,12 @@
    of pin_mode / digital_write / analog_write / digital_read / analog_read over int and str
    pins); [dread s p] / [aread s p] are what digital_read(p) / analog_read(p) return in [s];
    [history k ops] is the reference memory semantics computed from the calls alone. *)
-From Coq Require Import ZArith QArith List Bool.
+From Coq Require Import ZArith QArith List Bool Reals Qreals SpecFloat.
+From Flocq Require Import Core.Core IEEE754.BinarySingleNaN.
 From RV Require Import Base.Wire Base.Text Base.NumC Base.TextC
-  Host.Core Host.Utils Host.Sensors Host.Serial
-  Proofs.NumCP Proofs.CoreP Proofs.UtilsP Proofs.SensorsP.
+  Host.Core Host.Utils Host.Sensors Host.Serial Host.UtilsFloat Host.CoreKeys
+  Proofs.NumCP Proofs.CoreP Proofs.UtilsP Proofs.SensorsP
+  Proofs.UtilsFloatSP Proofs.UtilsFloatP Proofs.UtilsFloatErrP Proofs.UtilsFloatPrim Proofs.CoreKeysP.
 Import ListNotations.
 Open Scope Z_scope.
 
@@ -394,3 +396,362 @@ Proof.
   split; [eexists; vm_compute; reflexivity|eexists; vm_compute; reflexivity].
 Qed.
 Print Assumptions C20_hypotheses_nonvacuous.
+
+(* ====================================================================================
+   Utils.map / Utils.sleep BIT FOR BIT (Host/UtilsFloat.v): binary64 floats (SpecFloat of the
+   standard library), unbounded ints, bools, None, IEEE specials.  [fmap]/[fsleep] are what the
+   correspondence compares with float.hex() of the real results.  Theorems stated with real
+   numbers go through Flocq's IEEE-754 formalisation and depend on the axioms of Coq's
+   classical real numbers (printed below each); the others are closed.
+   B = binary_float 53 1024 (every well-formed datum, C20_float_valid_is_B); b2sf / b2r: its
+   SpecFloat datum / its real value; rnd = rounding to nearest binary64, ties to even. *)
+
+(* ValueError is raised by the zero-width test and by nothing else, for ALL arguments *)
+Theorem C20_fmap_refuses_iff : forall x fl fh tl th : fnum,
+  fmap x fl fh tl th = FRaise EValue <-> py_eq fl fh = true.
+Proof. exact fmap_refuses_iff. Qed.
+Print Assumptions C20_fmap_refuses_iff.
+
+(* from_low == from_high compares exact values: int with float without conversion ... *)
+Theorem C20_fmap_eq_int_float_exact : forall (z : Z) (f : sf) (q : Q),
+  sf_Q f = Some q -> (py_eq (NI z) (NF f) = true <-> (inject_Z z == q)%Q).
+Proof. exact py_eq_int_float_exact. Qed.
+Print Assumptions C20_fmap_eq_int_float_exact.
+
+(* ... and float with float by value (-0.0 == 0.0) *)
+Theorem C20_fmap_eq_floats : forall a b : B,
+  is_finite a = true -> is_finite b = true ->
+  (py_eq (NF (b2sf a)) (NF (b2sf b)) = true <-> b2r a = b2r b).
+Proof. exact py_eq_floats. Qed.
+Print Assumptions C20_fmap_eq_floats.
+
+Theorem C20_fmap_eq_specials :
+  py_eq (NF S754_nan) (NF S754_nan) = false /\
+  py_eq (NF (S754_zero true)) (NF (S754_zero false)) = true /\
+  py_eq (NF (S754_zero true)) (NI 0) = true /\
+  py_eq (NF (S754_infinity false)) (NF (S754_infinity false)) = true /\
+  (forall z, py_eq (NI z) (NF (S754_infinity false)) = false) /\
+  (forall z, py_eq (NI z) (NF S754_nan) = false).
+Proof. exact py_eq_specials. Qed.
+Print Assumptions C20_fmap_eq_specials.
+
+Theorem C20_fmap_none : forall x fl fh tl th : fnum,
+  py_eq fl fh = false -> (x = NN \/ fl = NN) -> fmap x fl fh tl th = FRaise EType.
+Proof. exact fmap_none. Qed.
+Print Assumptions C20_fmap_none.
+
+Theorem C20_fmap_float_path : forall x fl fh tl th : sf,
+  fmap (NF x) (NF fl) (NF fh) (NF tl) (NF th) = fmap_ff x fl fh tl th.
+Proof. exact fmap_floats. Qed.
+Print Assumptions C20_fmap_float_path.
+
+Theorem C20_float_valid_is_B : forall f : sf, fvalid f = true -> exists b : B, f = b2sf b.
+Proof. exact valid_is_B. Qed.
+Print Assumptions C20_float_valid_is_B.
+
+(* the float function IS this sequence of six correctly rounded operations *)
+Theorem C20_fmap_rounding_sequence : forall x fl fh tl th : B,
+  is_finite x = true -> is_finite fl = true -> is_finite fh = true ->
+  is_finite tl = true -> is_finite th = true ->
+  b2r fl <> b2r fh ->
+  let n := rnd (b2r x - b2r fl) in
+  let d := rnd (b2r fh - b2r fl) in
+  let q := rnd (n / d) in
+  let w := rnd (b2r th - b2r tl) in
+  let p := rnd (q * w) in
+  let y := rnd (b2r tl + p) in
+  in_range n -> in_range d -> in_range q -> in_range w -> in_range p -> in_range y ->
+  exists r : B,
+    fmap_ff (b2sf x) (b2sf fl) (b2sf fh) (b2sf tl) (b2sf th) = FOk (b2sf r) /\
+    is_finite r = true /\ b2r r = y.
+Proof. exact fmap_ff_rounding. Qed.
+Print Assumptions C20_fmap_rounding_sequence.
+
+(* map(from_low) = to_low: guard = neither the span nor the output width overflows *)
+Theorem C20_fmap_lower_endpoint_partial : forall fl fh tl th : B,
+  is_finite fl = true -> is_finite fh = true -> is_finite tl = true -> is_finite th = true ->
+  b2r fl <> b2r fh ->
+  in_range (rnd (b2r fh - b2r fl)) -> in_range (rnd (b2r th - b2r tl)) ->
+  exists r : B,
+    fmap_ff (b2sf fl) (b2sf fl) (b2sf fh) (b2sf tl) (b2sf th) = FOk (b2sf r) /\
+    is_finite r = true /\ b2r r = b2r tl.
+Proof. exact fmap_ff_lower_endpoint. Qed.
+Print Assumptions C20_fmap_lower_endpoint_partial.
+
+(* the same with a guard on the four magnitudes alone (2^1022 is about 4.49e307) *)
+Theorem C20_fmap_lower_endpoint_guard : forall fl fh tl th : B,
+  is_finite fl = true -> is_finite fh = true -> is_finite tl = true -> is_finite th = true ->
+  b2r fl <> b2r fh ->
+  (Rabs (b2r fl) <= bpow radix2 1022)%R -> (Rabs (b2r fh) <= bpow radix2 1022)%R ->
+  (Rabs (b2r tl) <= bpow radix2 1022)%R -> (Rabs (b2r th) <= bpow radix2 1022)%R ->
+  exists r : B,
+    fmap_ff (b2sf fl) (b2sf fl) (b2sf fh) (b2sf tl) (b2sf th) = FOk (b2sf r) /\
+    is_finite r = true /\ b2r r = b2r tl.
+Proof. exact fmap_ff_lower_endpoint_guard. Qed.
+Print Assumptions C20_fmap_lower_endpoint_guard.
+
+(* outside the guard the clause fails: map(0.0, 0.0, 1.0, -1e308, 1e308) is nan (the output
+   width overflows to inf and 0.0 * inf is nan) - finding F-C20-map-float-range *)
+Example C20_fmap_lower_endpoint_refuted :
+  exists fl fh tl th : sf,
+    forallb fvalid [fl; fh; tl; th] = true /\ forallb is_ffinite [fl; fh; tl; th] = true /\
+    py_eq (NF fl) (NF fh) = false /\
+    fmap (NF fl) (NF fl) (NF fh) (NF tl) (NF th) = FOk S754_nan.
+Proof. exists F0, F1, Fm1e308, F1e308. vm_compute. repeat split. Qed.
+Print Assumptions C20_fmap_lower_endpoint_refuted.
+
+(* map(from_high) = rnd(to_low + rnd(to_high - to_low)); it is to_high when that
+   subtraction is exact *)
+Theorem C20_fmap_upper_endpoint_partial : forall fl fh tl th : B,
+  is_finite fl = true -> is_finite fh = true -> is_finite tl = true -> is_finite th = true ->
+  b2r fl <> b2r fh ->
+  in_range (rnd (b2r fh - b2r fl)) -> in_range (rnd (b2r th - b2r tl)) ->
+  in_range (rnd (b2r tl + rnd (b2r th - b2r tl))) ->
+  exists r : B,
+    fmap_ff (b2sf fh) (b2sf fl) (b2sf fh) (b2sf tl) (b2sf th) = FOk (b2sf r) /\
+    is_finite r = true /\ b2r r = rnd (b2r tl + rnd (b2r th - b2r tl)) /\
+    (rnd (b2r th - b2r tl) = (b2r th - b2r tl)%R -> b2r r = b2r th).
+Proof. exact fmap_ff_upper_endpoint. Qed.
+Print Assumptions C20_fmap_upper_endpoint_partial.
+
+(* ... and need not be otherwise: map(1.0, 0.0, 1.0, 1e16, 1.0) is 0.0, not 1.0 (rounding of
+   to_high - to_low; within 1 ulp of to_low: rounding noise, not a finding) *)
+Example C20_fmap_upper_endpoint_inexact :
+  fmap (NF F1) (NF F0) (NF F1) (NF F1e16) (NF F1) = FOk (S754_zero false) /\
+  fmap (NF F03) (NF F01) (NF F03) (NF F01) (NF F03) = FOk F03.
+Proof. vm_compute. split; reflexivity. Qed.
+Print Assumptions C20_fmap_upper_endpoint_inexact.
+
+(* a NON-zero source range that is refused all the same, with ZeroDivisionError: the int
+   2^53+1 and the float 2.0^53 differ (exact comparison) but float(2^53+1) = 2.0^53; and ints
+   beyond the float range raise OverflowError as soon as they meet a float - finding
+   F-C20-map-float-range *)
+Example C20_fmap_nonzero_span_refuted :
+  py_eq (NI (2 ^ 53 + 1)) (NF F2p53) = false /\
+  fmap (NI 1) (NI (2 ^ 53 + 1)) (NF F2p53) (NI 0) (NI 1) = FRaise EZeroDiv /\
+  fmap (NI (10 ^ 400)) (NI 0) (NI (2 * 10 ^ 400)) (NI 0) (NI 1) = FOk Fhalf /\
+  fmap (NI (10 ^ 400)) (NF F0) (NI (2 * 10 ^ 400)) (NI 0) (NI 1) = FRaise EOverflow.
+Proof. vm_compute. repeat split. Qed.
+Print Assumptions C20_fmap_nonzero_span_refuted.
+
+(* ERROR BOUND against the exact affine map (u = 2^-53): with no intermediate overflow and the
+   quotient and the product outside the subnormal range (or zero), the binary64 result is
+   within 8 u (|to_low| + |ratio (to_high - to_low)|) of it *)
+Theorem C20_fmap_error_bound : forall x fl fh tl th : B,
+  is_finite x = true -> is_finite fl = true -> is_finite fh = true ->
+  is_finite tl = true -> is_finite th = true ->
+  b2r fl <> b2r fh ->
+  let n := rnd (b2r x - b2r fl) in
+  let d := rnd (b2r fh - b2r fl) in
+  let q := rnd (n / d) in
+  let w := rnd (b2r th - b2r tl) in
+  let p := rnd (q * w) in
+  let y := rnd (b2r tl + p) in
+  in_range n -> in_range d -> in_range q -> in_range w -> in_range p -> in_range y ->
+  normal_or_zero (n / d) -> normal_or_zero (q * w) ->
+  exists r : B,
+    fmap_ff (b2sf x) (b2sf fl) (b2sf fh) (b2sf tl) (b2sf th) = FOk (b2sf r) /\
+    is_finite r = true /\
+    (Rabs (b2r r - (b2r tl + (b2r x - b2r fl) / (b2r fh - b2r fl) * (b2r th - b2r tl)))
+     <= 8 * u * (Rabs (b2r tl) + Rabs ((b2r x - b2r fl) / (b2r fh - b2r fl) * (b2r th - b2r tl))))%R.
+Proof. exact fmap_ff_error. Qed.
+Print Assumptions C20_fmap_error_bound.
+
+(* the Fraction the harness sends for a float is the value of the float ... *)
+Theorem C20_float_value_is_fraction : forall (x : B) (q : Q),
+  sf_Q (b2sf x) = Some q -> Q2R q = b2r x.
+Proof. exact sf_Q_b2r. Qed.
+Print Assumptions C20_float_value_is_fraction.
+
+(* ... so the same bound holds against the exact-rational model [umap] (C20_map_affine) run
+   on the same five numbers: this is the distance between the two models of Utils.map *)
+Theorem C20_fmap_error_vs_rational_model : forall (x fl fh tl th : B) (qx qfl qfh qtl qth : Q),
+  sf_Q (b2sf x) = Some qx -> sf_Q (b2sf fl) = Some qfl -> sf_Q (b2sf fh) = Some qfh ->
+  sf_Q (b2sf tl) = Some qtl -> sf_Q (b2sf th) = Some qth ->
+  ~ (qfl == qfh)%Q ->
+  let n := rnd (b2r x - b2r fl) in
+  let d := rnd (b2r fh - b2r fl) in
+  let q := rnd (n / d) in
+  let w := rnd (b2r th - b2r tl) in
+  let p := rnd (q * w) in
+  let y := rnd (b2r tl + p) in
+  in_range n -> in_range d -> in_range q -> in_range w -> in_range p -> in_range y ->
+  normal_or_zero (n / d) -> normal_or_zero (q * w) ->
+  exists (r : B) (v : Q),
+    umap qx qfl qfh qtl qth = UOk v /\
+    fmap_ff (b2sf x) (b2sf fl) (b2sf fh) (b2sf tl) (b2sf th) = FOk (b2sf r) /\
+    is_finite r = true /\
+    (Rabs (b2r r - Q2R v) <= 8 * u * (Rabs (Q2R qtl) + Rabs (Q2R v - Q2R qtl)))%R.
+Proof. exact fmap_ff_error_Q. Qed.
+Print Assumptions C20_fmap_error_vs_rational_model.
+
+(* the hypotheses of the three theorems above hold on map(5.0, 0.0, 10.0, 0.0, 100.0) = 50.0 *)
+Example C20_fmap_hypotheses_nonvacuous :
+  is_finite B5 = true /\ is_finite Bz = true /\ is_finite B10 = true /\ is_finite B100 = true /\
+  b2r Bz <> b2r B10 /\
+  let n := rnd (b2r B5 - b2r Bz) in
+  let d := rnd (b2r B10 - b2r Bz) in
+  let q := rnd (n / d) in
+  let w := rnd (b2r B100 - b2r Bz) in
+  let p := rnd (q * w) in
+  let y := rnd (b2r Bz + p) in
+  in_range n /\ in_range d /\ in_range q /\ in_range w /\ in_range p /\ in_range y /\
+  normal_or_zero (n / d) /\ normal_or_zero (q * w) /\
+  fmap_ff (b2sf B5) (b2sf Bz) (b2sf B10) (b2sf Bz) (b2sf B100) = FOk F50.
+Proof. exact error_hyps_nonvacuous. Qed.
+Print Assumptions C20_fmap_hypotheses_nonvacuous.
+
+(* int / int true division (CPython rounds the exact quotient once) coincides, bit for bit,
+   with the IEEE division of the two floats for every pair of a finite grid of ints that
+   float() represents exactly: -60..60 and nine 40..53-bit boundary values (16900 pairs,
+   evaluated by the kernel; the bound is the statement).  Beyond 2^53 the two differ - that
+   is what int_truediv is for - and only the correspondence with CPython covers it. *)
+Theorem C20_int_truediv_grid : forall a b : Z,
+  In a zgrid -> In b zgrid -> b <> 0 ->
+  exists q fa fb, int_truediv a b = Some q /\ z2f a = Some fa /\ z2f b = Some fb /\
+                  sf_eqb q (fdiv fa fb) = true.
+Proof. exact int_truediv_grid_all. Qed.
+Print Assumptions C20_int_truediv_grid.
+
+(* the SpecFloat model against Coq's PRIMITIVE binary64 floats (kernel hardware arithmetic):
+   Utils.map evaluated with the primitive operations agrees bit for bit with fmap_ff on all
+   26620 tuples of a table of boundary values (specials, signed zeros, subnormals, DBL_MAX) *)
+Example C20_fmap_agrees_with_primitive_floats :
+  (Z.of_nat (length tuples) =? 26620)%Z = true /\ forallb agree tuples = true.
+Proof. exact prim_agrees. Qed.
+Print Assumptions C20_fmap_agrees_with_primitive_floats.
+
+(* ---- sleep *)
+
+(* for EVERY argument: an exception and no call, or exactly one call with float(d) / 1000.0 *)
+Theorem C20_fsleep_once : forall d : fnum,
+  (exists e, fsleep d = ([], FRaise e)) \/
+  (exists v ms, of_num d = Some v /\ pv_ltz v = false /\ as_float v = FOk ms /\
+                fsleep d = ([fdiv ms f1000], FOk tt)).
+Proof. exact fsleep_once. Qed.
+Print Assumptions C20_fsleep_once.
+
+Theorem C20_fsleep_refusals : forall d : fnum,
+  (d = NN -> fsleep d = ([], FRaise EType)) /\
+  (forall z, d = NI z -> z < 0 -> fsleep d = ([], FRaise EValue)) /\
+  (forall z, d = NI z -> 2 ^ 1024 <= z -> fsleep d = ([], FRaise EOverflow)).
+Proof. exact fsleep_refusals. Qed.
+Print Assumptions C20_fsleep_refusals.
+
+(* finite floats: negatives refused, otherwise ONE call with the correctly rounded d/1000 *)
+Theorem C20_fsleep_float : forall d : B,
+  is_finite d = true ->
+  ((b2r d < 0)%R -> fsleep (NF (b2sf d)) = ([], FRaise EValue)) /\
+  ((0 <= b2r d)%R -> exists s : B,
+      fsleep (NF (b2sf d)) = ([b2sf s], FOk tt) /\ is_finite s = true /\ b2r s = rnd (b2r d / 1000)%R).
+Proof. exact fsleep_float. Qed.
+Print Assumptions C20_fsleep_float.
+
+(* float(z) of an int is the correctly rounded value; OverflowError exactly when that is
+   not below 2^1024 *)
+Theorem C20_float_of_int : forall z : Z,
+  (in_range (rnd (IZR z)) ->
+     exists b : B, z2f z = Some (b2sf b) /\ is_finite b = true /\ b2r b = rnd (IZR z)) /\
+  (~ in_range (rnd (IZR z)) -> z2f z = None).
+Proof. exact z2f_correct. Qed.
+Print Assumptions C20_float_of_int.
+
+(* ints: negatives refused, too large for float(): OverflowError and no call, otherwise ONE
+   call with rnd (rnd z / 1000) *)
+Theorem C20_fsleep_int : forall z : Z,
+  (z < 0 -> fsleep (NI z) = ([], FRaise EValue)) /\
+  (0 <= z -> ~ in_range (rnd (IZR z)) -> fsleep (NI z) = ([], FRaise EOverflow)) /\
+  (0 <= z -> in_range (rnd (IZR z)) -> exists s : B,
+      fsleep (NI z) = ([b2sf s], FOk tt) /\ is_finite s = true /\ b2r s = rnd (rnd (IZR z) / 1000)%R).
+Proof. exact fsleep_int. Qed.
+Print Assumptions C20_fsleep_int.
+
+Theorem C20_fsleep_specials :
+  fsleep (NF S754_nan) = ([S754_nan], FOk tt) /\
+  fsleep (NF (S754_infinity false)) = ([S754_infinity false], FOk tt) /\
+  fsleep (NF (S754_infinity true)) = ([], FRaise EValue) /\
+  fsleep (NF (S754_zero true)) = ([S754_zero true], FOk tt) /\
+  fsleep NN = ([], FRaise EType).
+Proof. exact fsleep_specials. Qed.
+Print Assumptions C20_fsleep_specials.
+
+Example C20_fmap_nonvacuous :
+  forallb fvalid [F0; F1; F5; F10; F50; F100; Fhalf; F1e16; F1e308; Fm1e308; F2p53; F01; F03] = true /\
+  fmap (NI 5) (NI 0) (NI 10) (NI 0) (NI 100) = FOk F50 /\
+  fmap (NF F5) (NI 0) (NB true) (NF F0) (NF F10) = FOk F50 /\
+  fmap (NI 0) (NI 0) (NI (-5)) (NI 0) (NI 1) = FOk (S754_zero false) /\
+  int_truediv 0 (-5) = Some (S754_zero true) /\
+  fmap (NI 1) (NB true) (NF F1) (NI 0) (NI 1) = FRaise EValue /\
+  fmap (NI 1) NN NN (NI 0) (NI 1) = FRaise EValue /\
+  fmap (NI 1) (NI 0) (NI 1) NN (NI 1) = FRaise EType /\
+  fmap (NF S754_nan) (NI 0) (NI 1) (NI 0) (NI 1) = FOk S754_nan /\
+  fmap (NI 1) (NF S754_nan) (NF S754_nan) (NI 0) (NI 1) = FOk S754_nan /\
+  fmap (NI 1) (NF (S754_infinity false)) (NF (S754_infinity false)) (NI 0) (NI 1) = FRaise EValue /\
+  fsleep (NI 1500) = ([S754_finite false 6755399441055744 (-52)], FOk tt) /\
+  fsleep (NB true) = ([S754_finite false 4611686018427388 (-62)], FOk tt) /\
+  fsleep (NI (10 ^ 400)) = ([], FRaise EOverflow).
+Proof. vm_compute. repeat split. Qed.
+Print Assumptions C20_fmap_nonvacuous.
+
+(* ====================================================================================
+   Core pins that are neither int nor str (Host/CoreKeys.v) *)
+
+(* True / False are the pins 1 / 0; a float with an integer value is that int pin *)
+Theorem C20_xpin_bool_float_alias : forall (b : bool) (z : Z),
+  xkey (XB b) = xkey (XI (b2z b)) /\ xkey (XF (inject_Z z)) = xkey (XI z).
+Proof. exact (fun b z => conj (xkey_bool b) (xkey_float_int z)). Qed.
+Print Assumptions C20_xpin_bool_float_alias.
+
+(* keys are normal forms: the theorems above about [normalise p] speak about the key *)
+Theorem C20_xpin_key_normal : forall (p : xpin) (k : pin), xkey p = Some k -> normalise k = k.
+Proof. exact xkey_normal. Qed.
+Print Assumptions C20_xpin_key_normal.
+
+(* non-integral floats and None are pins of their own *)
+Theorem C20_xpin_own_keys : forall (q : Q) (z : Z) (t : text),
+  (q_integral q = false -> float_key q <> PinI z) /\
+  (wf_text t = true -> none_key <> normalise (PinS t)).
+Proof. exact (fun q z t => conj (float_key_not_int q z) (none_key_not_str t)). Qed.
+Print Assumptions C20_xpin_own_keys.
+
+(* THE KEY RELATION of the Core dicts over pins of any hashable type: same key exactly when
+   Python identifies the normalised objects - equal numbers across int / bool / float /
+   all-digit str, equal other strings, or both None *)
+Theorem C20_xpin_same_key : forall a b : xpin,
+  a <> XUnhashable -> b <> XUnhashable -> wf_xpin a = true -> wf_xpin b = true ->
+  (xkey a = xkey b <-> same_key a b = true).
+Proof. exact xkey_same. Qed.
+Print Assumptions C20_xpin_same_key.
+
+Theorem C20_xpin_float_keys : forall x y : Q, float_key x = float_key y <-> (x == y)%Q.
+Proof. exact float_key_eq. Qed.
+Print Assumptions C20_xpin_float_keys.
+
+(* an unhashable pin makes the call raise TypeError and changes nothing *)
+Theorem C20_xpin_unhashable : forall (s : core) (o : xop),
+  xop_pin o = XUnhashable -> xstep s o = (s, RRaise TypeError).
+Proof. exact (fun s o H => xstep_unhashable s o (proj2 (xkey_none_iff _) H)). Qed.
+Print Assumptions C20_xpin_unhashable.
+
+(* a history over hashable pins of any type is the history over their keys: read-your-writes,
+   aliasing, non-interference, clamping and the unwritten defaults (all theorems above) hold
+   for it verbatim *)
+Theorem C20_xpin_lowering : forall (ops : list xop),
+  Forall (fun o => xop_pin o <> XUnhashable) ops ->
+  exists l, lower_all ops = Some l /\ forall s, xrun_from s ops = run_from s l.
+Proof.
+  exact (fun ops H => match lower_all_hashable ops H with
+                      | ex_intro _ l Hl => ex_intro _ l (conj Hl (fun s => xrun_lowering ops s l Hl))
+                      end).
+Qed.
+Print Assumptions C20_xpin_lowering.
+
+Example C20_xpin_nonvacuous :
+  snd (xrun_from init
+         [XDWrite (XB true) (PI 1); XDRead (XI 1); XDRead (XS [48; 49]); XDRead (XF 1); XDRead (XF (3 # 2));
+          XAWrite XNone (PI 300); XARead XNone; XARead (XS [78; 111; 110; 101]); XDRead XUnhashable;
+          XPinMode (XF (15 # 2)) INPUT_PULLUP; XDRead (XF (30 # 4)); XDRead (XI 7); XAWrite XUnhashable PO])
+  = [RNone; RVal 1; RVal 1; RVal 1; RVal 0; RNone; RVal 255; RVal 0; RRaise TypeError;
+     RNone; RVal 1; RVal 0; RRaise TypeError].
+Proof. vm_compute. reflexivity. Qed.
+Print Assumptions C20_xpin_nonvacuous.
